@@ -484,6 +484,50 @@ fn format_function(
 // * =RC+R1C1
 // * =A1+B1
 
+/// Binding strength of the outermost operator of `node` in the grammar of the
+/// parser (see the grammar at the top of `parser/mod.rs`); higher binds tighter.
+/// Everything that is not an operator is a primary.
+fn precedence(node: &Node) -> u8 {
+    match node {
+        Node::CompareKind { .. } => 1,
+        Node::OpConcatenateKind { .. } => 2,
+        Node::OpSumKind { .. } => 3,
+        Node::OpProductKind { .. } => 4,
+        Node::OpPowerKind { .. } => 5,
+        Node::UnaryKind { .. } => 6,
+        Node::OpRangeKind { .. } => 7,
+        Node::ImplicitIntersection { .. } | Node::SpillRangeOperator { .. } => 8,
+        _ => 9,
+    }
+}
+
+/// Stringifies an operand, wrapping it in parentheses when it binds weaker than
+/// `min_precedence`, the weakest operator the grammar accepts in that position
+/// without parentheses.
+fn stringify_operand(
+    node: &Node,
+    min_precedence: u8,
+    context: Option<&CellReferenceRC>,
+    displace_data: &DisplaceData,
+    export_to_excel: bool,
+    locale: &Locale,
+    language: &Language,
+) -> String {
+    let s = stringify(
+        node,
+        context,
+        displace_data,
+        export_to_excel,
+        locale,
+        language,
+    );
+    if precedence(node) < min_precedence {
+        format!("({s})")
+    } else {
+        s
+    }
+}
+
 fn stringify(
     node: &Node,
     context: Option<&CellReferenceRC>,
@@ -652,16 +696,18 @@ fn stringify(
         }
         OpRangeKind { left, right } => format!(
             "{}:{}",
-            stringify(
+            stringify_operand(
                 left,
+                8,
                 context,
                 displace_data,
                 export_to_excel,
                 locale,
                 language
             ),
-            stringify(
+            stringify_operand(
                 right,
+                9,
                 context,
                 displace_data,
                 export_to_excel,
@@ -671,16 +717,18 @@ fn stringify(
         ),
         OpConcatenateKind { left, right } => format!(
             "{}&{}",
-            stringify(
+            stringify_operand(
                 left,
+                2,
                 context,
                 displace_data,
                 export_to_excel,
                 locale,
                 language
             ),
-            stringify(
+            stringify_operand(
                 right,
+                3,
                 context,
                 displace_data,
                 export_to_excel,
@@ -690,8 +738,9 @@ fn stringify(
         ),
         CompareKind { kind, left, right } => format!(
             "{}{}{}",
-            stringify(
+            stringify_operand(
                 left,
+                1,
                 context,
                 displace_data,
                 export_to_excel,
@@ -699,8 +748,9 @@ fn stringify(
                 language
             ),
             kind,
-            stringify(
+            stringify_operand(
                 right,
+                2,
                 context,
                 displace_data,
                 export_to_excel,
@@ -709,8 +759,8 @@ fn stringify(
             )
         ),
         OpSumKind { kind, left, right } => {
-            // CompareKind has lower precedence than +/-, so wrap it to preserve semantics
-            let left_str = if matches!(**left, CompareKind { .. }) {
+            // operators that bind weaker than +/- are wrapped to preserve semantics
+            let left_str = if precedence(left) < 3 {
                 format!(
                     "({})",
                     stringify(
@@ -732,9 +782,9 @@ fn stringify(
                     language,
                 )
             };
-            // if kind is minus then we need parentheses in the right side if they are OpSumKind or CompareKind
+            // if kind is minus then we need parentheses in the right side if they are OpSumKind
             let right_str = if (matches!(kind, OpSum::Minus) && matches!(**right, OpSumKind { .. }))
-                | matches!(**right, CompareKind { .. })
+                || precedence(right) < 3
             {
                 format!(
                     "({})",
@@ -762,7 +812,7 @@ fn stringify(
         }
         OpProductKind { kind, left, right } => {
             let x = match **left {
-                OpSumKind { .. } | CompareKind { .. } => format!(
+                _ if precedence(left) < 4 => format!(
                     "({})",
                     stringify(
                         left,
@@ -783,7 +833,7 @@ fn stringify(
                 ),
             };
             let y = match **right {
-                OpSumKind { .. } | CompareKind { .. } | OpProductKind { .. } => format!(
+                _ if precedence(right) < 5 => format!(
                     "({})",
                     stringify(
                         right,
@@ -987,7 +1037,7 @@ fn stringify(
                     | EmptyArgKind => false,
 
                     OpPowerKind { .. } | OpSumKind { .. } | UnaryKind { .. } => true,
-                };
+                } || precedence(right) < 7;
                 if needs_parentheses {
                     format!(
                         "-({})",
@@ -1017,8 +1067,9 @@ fn stringify(
             OpUnary::Percentage => {
                 format!(
                     "{}%",
-                    stringify(
+                    stringify_operand(
                         right,
+                        6,
                         context,
                         displace_data,
                         export_to_excel,
@@ -1047,8 +1098,9 @@ fn stringify(
             };
             format!(
                 "{}#",
-                stringify(
+                stringify_operand(
                     child,
+                    9,
                     context,
                     displace_data,
                     export_to_excel,
@@ -1142,8 +1194,9 @@ fn stringify(
             }
             format!(
                 "@{}",
-                stringify(
+                stringify_operand(
                     child,
+                    9,
                     context,
                     displace_data,
                     export_to_excel,
